@@ -20,10 +20,10 @@ ArgClasses(op) == (IF op = "set_log_base" THEN {"shmfd", "legacy"} ELSE {"ok"}) 
 
 \* deviations that make sense for a reply / an acknowledgement
 HeaderMutations == {"code+1", "code=0", "code=999", "flag-reply", "flag+need_reply", "ver0", "ver2", "resv",
-                    "size-1", "size+1", "size_field=0", "size_field>max", "body_short", "fds+1", "fds+2", "random", "silent"}
+                    "size-1", "size+1", "size_field=0", "size_field>max", "body_short", "fds+1", "fds+2", "fds+1_seg", "random", "silent"}
 ReplyMutations(op) ==
     (HeaderMutations \ (IF OpCode(op) \in {GET_SHARED_OBJECT} THEN {"size-1", "body_short"} ELSE {}))
-    \cup (IF op \in {"get_inflight_fd", "get_shared_object"} THEN {"fds-1"} ELSE {})
+    \cup (IF op \in {"get_inflight_fd", "get_shared_object"} THEN {"fds-1", "fds_late"} ELSE {})
     \cup (IF op \in {"get_config", "get_inflight_fd", "set_log_base", "get_queue_num", "set_device_state_fd", "check_device_state"}
           THEN {"body_invalid"} ELSE {})
     \cup (IF op = "get_config" THEN {"config_offset"} ELSE {})
